@@ -31,13 +31,16 @@ func wireDetails(enc *wire.Enc) []errors.SafeDetailPayload {
 
 // safeDetailsKept: the unknowing process reports, per layer, the type name and
 // the safe details the origin sent.
-func safeDetailsKept(v *sym.V, tag string, sent *wire.Enc, b error) {
+func safeDetailsKept(v *sym.V, tag string, sent *wire.Enc, b error, mask int) {
 	pa, pb := wireDetails(sent), errors.GetAllSafeDetails(b)
 	v.Assert("details-layers@"+tag, len(pa) == len(pb))
 	if len(pa) != len(pb) {
 		return
 	}
 	for i := range pa {
+		if mask&(1<<uint(i)) == 0 {
+			continue // a layer the process knows is rebuilt as its real type (covered by C11)
+		}
 		v.Assert("details-typename@"+tag, pa[i].OriginalTypeName == pb[i].OriginalTypeName)
 		v.Assert("details-count@"+tag, len(pa[i].SafeDetails) == len(pb[i].SafeDetails))
 		if len(pa[i].SafeDetails) == len(pb[i].SafeDetails) {
@@ -89,14 +92,30 @@ func H_C04_Unknowing(v *sym.V) {
 		b = g.BuildTiered("e", v.Param("D", 2), leaves, gen.AllWrappers, gen.AllWrappers)
 	}
 	e := b.Err
+	// The message the intermediary receives comes from a process that itself
+	// received the error (one knowing hop): from the first hop on, re-encoding by a
+	// knowing process is a fixpoint (C01), so every difference seen below is due to
+	// the types the intermediary does not know.
+	e = wire.Hop(e)
 	enc := wire.Copy(wire.Encode(e))
 	n := wire.Count(enc)
-	mask := 1 + v.Choice("mask", (1<<uint(n))-1)
+	var mask int
+	if v.Param("masks", 0) == 1 {
+		// reduced set of knowledge masks: every single layer unknown, or all of them
+		k := v.Choice("mask1", n+1)
+		if k == n {
+			mask = (1 << uint(n)) - 1
+		} else {
+			mask = 1 << uint(k)
+		}
+	} else {
+		mask = 1 + v.Choice("mask", (1<<uint(n))-1)
+	}
 	renamed := wire.Copy(enc)
 	wire.Rename(renamed, mask, "~u")
 	u := wire.Decode(renamed)
 	compareTrees(v, "unknowing", b, e, u)
-	safeDetailsKept(v, b.Kinds[0].String(), enc, u)
+	safeDetailsKept(v, b.Kinds[0].String(), enc, u, mask)
 	re := wire.Copy(wire.Encode(u))
 	v.Assert("reencode@"+b.Kinds[0].String(), wire.Equal(re, renamed))
 	wire.Unrename(re, "~u")
